@@ -114,6 +114,8 @@ func New(maxConcurrent int, chQqueueSize int, v ...interface{}) *TaskPool {
 					continue
 				}
 
+				// fork failed: undo its increment, as Go does.
+				atomic.AddInt64(&tp.concurrent, -1)
 				if f != nil {
 					tp.caller(f)
 				}
